@@ -1228,6 +1228,9 @@ pub fn run(ctx: &mut Ctx, prop: &str) {
         let shape = SHAPES[rng.below(SHAPES.len())];
         let max_len = if ctx.tier == Tier::Thorough && i % 50 == 0 {
             400
+        } else if rng.pct(4) {
+            // some defects need dozens of ordinary steps (two removals, a re-creation, then a query)
+            rng.range(60, 150)
         } else {
             *rng.pick(&[12usize, 25, 40])
         };
